@@ -25,6 +25,7 @@ type Cfg struct {
 	Lang                       int    `json:",omitempty"`
 	Seed                       int64  `json:",omitempty"` // 0 = unseeded; else 16 seed bytes derived from it
 	Hooks                      bool   `json:",omitempty"` // every host extension point installed as an observer / identity
+	Host                       bool   `json:",omitempty"` // host-supplied variables behind GlobalValueLoadFunc (InstallHostValues)
 }
 
 func AllOn() Cfg { return Cfg{WoD: true, CoC: true, Fate: true, DC: true} }
@@ -59,6 +60,7 @@ func (c Cfg) String() string {
 		p = append(p, fmt.Sprintf("seed=%d", c.Seed))
 	}
 	add(c.Hooks, "hooks")
+	add(c.Host, "host")
 	return strings.Join(p, ",")
 }
 
@@ -89,6 +91,12 @@ func (c Cfg) Apply(vm *ds.Context) {
 	vm.Config.OpCountLimit = ds.IntType(c.OpLimit)
 	vm.Config.ParseExprLimit = c.ParseLimit
 	vm.Config.ParseErrorLanguage = c.Lang
+	if c.Hooks {
+		InstallNoopHooks(vm)
+	}
+	if c.Host {
+		InstallHostValues(vm)
+	}
 }
 
 // NewVM builds a context for the configuration (seeded when Seed != 0).
@@ -99,10 +107,51 @@ func NewVM(c Cfg) *ds.Context {
 	}
 	vm.Init()
 	c.Apply(vm)
-	if c.Hooks {
-		InstallNoopHooks(vm)
-	}
 	return vm
+}
+
+// HostValues are the names served by InstallHostValues.
+var HostValues = []string{"gi", "gs", "ga", "gd", "gc", "&gc", "gself", "gcs", "gca", "gf", "gfbad", "gn", "gn0", "gnf"}
+
+// InstallHostValues makes the VM see variables the way an embedding program supplies them: through
+// GlobalValueLoadFunc / GlobalValueStoreFunc over a host-side table. The table holds plain values, computed values
+// and functions that have never been compiled (NewComputedVal, NewFunctionValRaw: compiled lazily on first use),
+// one that refers to itself, ones whose body is not valid syntax, a native object and a native function.
+func InstallHostValues(vm *ds.Context) {
+	tbl := map[string]*ds.VMValue{}
+	tbl["gi"] = ds.NewIntVal(5)
+	tbl["gs"] = ds.NewStrVal("str")
+	tbl["ga"] = ds.NewArrayVal(ds.NewIntVal(1), ds.NewIntVal(2), ds.NewIntVal(3))
+	tbl["gd"] = ds.NewDictValWithArrayMust(ds.NewStrVal("k"), ds.NewIntVal(1)).V()
+	tbl["gc"] = ds.NewComputedVal("gi + 2d1")
+	tbl["gself"] = ds.NewComputedVal("gself + 1")
+	tbl["gcs"] = ds.NewComputedVal("1 +")
+	ca := ds.NewComputedVal("this.k + gi")
+	if cd, ok := ca.ReadComputed(); ok {
+		cd.Attrs = &ds.ValueMap{}
+		cd.Attrs.Store("k", ds.NewIntVal(3))
+	}
+	tbl["gca"] = ca
+	tbl["gf"] = ds.NewFunctionValRaw(&ds.FunctionData{Expr: "a + gi", Name: "gf", Params: []string{"a"}})
+	tbl["gfbad"] = ds.NewFunctionValRaw(&ds.FunctionData{Expr: "1 +", Name: "gfbad"})
+	attrs := map[string]*ds.VMValue{}
+	items := map[string]*ds.VMValue{}
+	tbl["gn"] = ds.NewNativeObjectVal(&ds.NativeObjectData{
+		Name:     "gn",
+		AttrSet:  func(ctx *ds.Context, name string, v *ds.VMValue) { attrs[name] = v },
+		AttrGet:  func(ctx *ds.Context, name string) *ds.VMValue { return attrs[name] },
+		ItemSet:  func(ctx *ds.Context, index *ds.VMValue, v *ds.VMValue) { items[index.ToString()] = v },
+		ItemGet:  func(ctx *ds.Context, index *ds.VMValue) *ds.VMValue { return items[index.ToString()] },
+		DirFunc:  func(ctx *ds.Context) []*ds.VMValue { return []*ds.VMValue{ds.NewStrVal("a")} },
+		ToString: func(ctx *ds.Context) string { return "<gn>" },
+	})
+	tbl["gn0"] = ds.NewNativeObjectVal(&ds.NativeObjectData{Name: "gn0"})
+	tbl["gnf"] = ds.NewNativeFunctionVal(&ds.NativeFunctionData{
+		Name: "gnf", Params: []string{"a"},
+		NativeFunc: func(ctx *ds.Context, this *ds.VMValue, params []*ds.VMValue) *ds.VMValue { return params[0] },
+	})
+	vm.GlobalValueLoadFunc = func(name string) *ds.VMValue { return tbl[name] }
+	vm.GlobalValueStoreFunc = func(name string, v *ds.VMValue) { tbl[name] = v }
 }
 
 // InstallNoopHooks installs every host extension point in the form a well-behaved host would: observers that read
